@@ -660,7 +660,9 @@ func (f *FilerClient) Dump(root string, skip map[string]bool) (map[string]FEntry
 			}
 			sort.Strings(fe.Extended)
 			out[p] = fe
-			if e.IsDirectory {
+			// entries literally named "." or ".." (creatable through un-cleaned paths) are
+			// reported but not entered: they can be nested hundreds deep
+			if e.IsDirectory && e.Name != "." && e.Name != ".." {
 				if err := walk(p); err != nil {
 					return err
 				}
